@@ -23,6 +23,8 @@ RULE = ('Hypothesis draws mode sizes (order 1..4, N <= 64 quick / 256 thorough),
         'metamorphic relation als(A, previous=P, shift=s) == als(A + s sum p p^H); for power_method the Rayleigh quotient with '
         'conjugation and the inverse-iteration bound tan(theta_k) <= rho^k tan(theta_0). Non-trivial: complex, deflation, '
         'generalised problem, number_ev = 2, or power method.')
+RULE += (' ' + 'Added classes: size-1 modes, deflation tensors of any norm, a sensitivity probe for the deflation relation.')
+
 ASSUMPTIONS = [
     'oracle: scipy.linalg.eigh on dense matrices; TT operators built by vt/dense.tt_svd',
     'guesses have full-rank interfaces (ranks admissible from both sides, continuous entries)',
@@ -333,7 +335,7 @@ def body_power(c):
     def tan_theta(x):
         coef = V.conj().T @ ((B @ x) if B is not None else x)    # coordinates in the (B-)orthonormal eigenbasis
         ck = abs(coef[k])
-        rest = np.sqrt(max(float(np.sum(np.abs(coef) ** 2)) - ck * ck, 0.0))
+        rest = float(np.linalg.norm(np.delete(coef, k)))        # (not sqrt(|coef|^2 - ck^2): that difference resolves only sqrt(eps) = 1.5e-8)
         return rest / max(ck, 1e-300)
 
     t0, tk = tan_theta(x0), tan_theta(xv)
